@@ -466,7 +466,8 @@ Proof. vm_compute. repeat split. Qed.
                     decoded entries of the input FILES, tableCompactionBuilder (Lsm/Builder.v transact, any failure history) with
                     BytesLen = the model writer's offset, every output chunk written by the model writer, finish
      b_trivial_move tableCompaction's move branch
-     b_txn_commit   a transaction's table added at level 0 (defined; no theorem — see the notes of the check)
+     b_txn_commit   a committed transaction (also DB.Write of an oversized batch): its memdb flushed into one table that a
+                    record committed with trivial = false adds at level 0; enabled only with flushed DB memdbs (OpenTransaction)
    The invariant [bfull] = wf_bstate (5) + the step invariant WfLsm.wf_lsm of property C06 on the abstraction + no two stored
    entries with the same (user key, sequence number).
    Hypotheses stated explicitly everywhere: comparer_ok, the generated constants' side conditions, the codec contract of
@@ -477,7 +478,7 @@ Proof. vm_compute. repeat split. Qed.
    boolean on the file, evaluated by the correspondence run on every table of every dumped state; with no policy —
    goleveldb's default — it holds outright; it is NOT proved for the model's bloom filter writer). *)
 From GL Require Import Base.Cursor Codec.TableSizes Lsm.Pick Lsm.WfLsm Lsm.C06Steps Lsm.Builder Lsm.BuilderCuts Lsm.WritePath
-  Lsm.WritePathTable Lsm.WritePathSteps Lsm.WritePathTheorems Lsm.WritePathHistory.
+  Lsm.WritePathTable Lsm.WritePathSteps Lsm.WritePathTheorems Lsm.WritePathTxn Lsm.WritePathHistory.
 
 (* (7a) "The table writer produces files that pass tfile_okb", for the MODEL writer: for every strictly increasing non-empty list
    of stored internal keys (decodable, kind value or deletion), either compression setting, the file table_bytes returns
@@ -607,6 +608,40 @@ Theorem C01_compaction_step_bytes :
 Proof. exact compact_bytes. Qed.
 Print Assumptions C01_compaction_step_bytes.
 
+(* (7e') A committed transaction.  L1 part (the case property C06 left to the correspondence check): installing ONE level-0
+   table that is well-formed, under an unused number and newer than every stored entry of its user keys, by a record
+   committed with trivial = false, keeps the step invariant; level 0 is a permutation of the old level 0 plus the table. *)
+Theorem C01_txn_install_step : forall c p v t, wf_lsm c p v -> PickBase.tbl_ok c p t -> uniq (t_entries t) ->
+  (forall i x y, In x (t_entries t) -> In y (LE (lv v i)) -> e_uk x = e_uk y -> (e_seq y < e_seq x)%N) ->
+  (forall i s, In s (lv v i) -> t_num s <> t_num t) ->
+  exists nv, finish c false v (txn_edit t) = POk nv /\ wf_lsm c p nv /\
+    Permutation.Permutation (lv nv 0) (t :: lv v 0) /\ forall l, (0 < l)%nat -> lv nv l = lv v l.
+Proof. exact txn_install. Qed.
+Print Assumptions C01_txn_install_step.
+
+(* ... and the byte-level step: bfull kept, the stored entries are the old ones plus exactly the stamped records. *)
+Theorem C01_txn_step_bytes :
+  forall c, comparer_ok c -> forall p, kparams_ok p -> (keyTypeSeek p <= keyTypeVal p)%N ->
+  forall mp, MemDB.mparams_ok mp -> forall tp, tparams_ok tp -> forall crc, (forall b, (crc b < 2 ^ 32)%N) ->
+  forall compress decompress, (forall x, decompress (compress x) = Some x) -> (forall x, compress x <> []) ->
+  forall fname ufc verify o, (1 <= wo_ri o)%N ->
+  forall st recs hs num seq, bfull c p mp tp crc decompress fname ufc verify o st ->
+  let A := abs c mp tp crc decompress fname ufc verify (wo_ri o) in
+  bs_frozen st = None -> mem_is_empty c mp (bs_mem st) = true ->
+  (forall x, In x (all_entries (A st)) -> (e_seq x <= seq)%N) ->
+  Forall (rec_wf p) recs -> (seq + N.of_nat (length recs) <= keyMaxSeq p)%N -> heights_okl mp hs ->
+  (lenN (enc_recs p recs) < 2 ^ 63)%N ->
+  (forall f, In f (files_of st) -> tf_num f <> num) ->
+  (forall d0 d' hs', MemDB.mdb_new mp = MemDB.Ok d0 ->
+     batch_putmem p (ibc c) mp (batch_of p recs) (seq + 1) d0 hs = PmOk d' hs' -> mem_pairs mp d' <> [] ->
+     write_sizes_ok c p tp crc compress o (mem_pairs mp d') = true /\
+     table_filter_ok c p tp crc compress decompress fname ufc verify o (mem_pairs mp d')) ->
+  exists st', b_txn_commit c p mp tp crc compress decompress fname ufc verify o recs hs num seq st = Some st' /\
+    bfull c p mp tp crc decompress fname ufc verify o st' /\ bs_mem st' = bs_mem st /\ bs_frozen st' = None /\
+    same_elems (all_entries (A st) ++ stamp seq (map (norm_rec p) recs)) (all_entries (A st')).
+Proof. exact txn_step. Qed.
+Print Assumptions C01_txn_step_bytes.
+
 Theorem C01_bfull_is_wf_bstate :
   forall c p mp tp crc decompress fname ufc verify o st, bfull c p mp tp crc decompress fname ufc verify o st ->
   wf_bstate c p mp tp crc decompress fname ufc verify (wo_ri o) st.
@@ -614,14 +649,14 @@ Proof. exact bfull_wf. Qed.
 Print Assumptions C01_bfull_is_wf_bstate.
 
 (* (7f) THE CAPSTONE.  For every finite sequence of byte-level steps from the empty DB — writes of batches, rotations, flushes,
-   table compactions with any picker choice / seed / failure history, trivial moves, snapshot acquisitions and releases —
+   table compactions with any picker choice / seed / failure history, trivial moves, committed transactions, snapshot
+   acquisitions and releases —
    that the model executes (brun = Some: each step is enabled, e.g. a flush has a frozen memdb to flush) and whose side
    conditions hold (bops_ok: records well-formed, db.seq stays below keyMaxSeq, heights as randHeight draws them, fresh file
    numbers, the size condition and — when a filter policy is configured — the filter condition of every table written), the
    byte state is well-formed and DB.Get computed on the BYTES at
    db.seq returns, for every key, what the plain map driven by the written batches returns; and a read at the sequence
-   number of a snapshot that is still live returns what the plain map returned at the instant the snapshot was taken.
-   Not covered: transaction commits (bop_ok (BTxn ..) = False). *)
+   number of a snapshot that is still live returns what the plain map returned at the instant the snapshot was taken. *)
 Theorem C01_history_bytes :
   forall c, comparer_ok c -> forall p, kparams_ok p -> (keyTypeSeek p <= keyTypeVal p)%N ->
   forall mp, MemDB.mparams_ok mp -> forall tp, tparams_ok tp -> forall crc, (forall b, (crc b < 2 ^ 32)%N) ->
@@ -642,9 +677,11 @@ Print Assumptions C01_history_bytes.
 (* Non-vacuity of (7): a codec that satisfies the contract, options with NoCompression and no filter policy (block size 16,
    restart interval 2, table size 30 so that the compaction cuts), and a run of ten steps from the empty DB — a batch of three
    Puts, rotation, flush to file 5, a Delete and a Put, a snapshot (at 5), a Put, rotation, flush to file 6, a level-0 table
-   compaction of files 6 and 5 whose builder writes two tables (7 and 8, minSeq = 5 because of the snapshot), a Put — that the
-   model executes, that meets every side condition (bops_ok), and whose reads, evaluated, are the plain map's: at db.seq = 7
-   a = the last Put, b deleted, c overwritten; at the snapshot c still has its first value and a is absent.  The second
+   compaction of files 6 and 5 whose builder writes two tables (7 and 8, minSeq = 5 because of the snapshot), a Put, rotation,
+   flush to file 9, a committed transaction (a Put and a Delete, table 10 at level 0) — that the
+   model executes, that meets every side condition (bops_ok), and whose reads, evaluated, are the plain map's: at db.seq = 9
+   a = the last Put, b deleted, c overwritten, d deleted by the transaction, f put by it; at the snapshot c still has its
+   first value and a is absent.  The second
    example: the same writer with compression ON (the tag codec) writes a file for which the size condition evaluates to
    true and which passes tfile_okb. *)
 From GL Require Import Lsm.BatchWriteProofs.
@@ -659,7 +696,9 @@ Definition wx_ops : list bop :=
     BWrite [(1, [99], [9])] [2];
     BRotate; BFlush 6;
     BCompact 0 [6; 5] [o_ok] [7; 8];
-    BWrite [(1, [97], [5])] [1] ].
+    BWrite [(1, [97], [5])] [1];
+    BRotate; BFlush 9;
+    BTxn [(1, [102], [7]); (0, [100], [])] [1; 1] 10 ].
 Local Notation wx_run := (brun bytewise kp mp tblp tbl_crc wx_compress wx_decompress None (fun _ _ _ => true) true wx_o).
 Local Notation wx_step := (bstep bytewise kp mp tblp tbl_crc wx_compress wx_decompress None (fun _ _ _ => true) true wx_o).
 Local Notation wx_get w k s := (bapi (db_get_bytes bytewise kp mp tblp tbl_crc wx_decompress None (fun _ _ _ => true) true (ws_bs w) [k] s)).
@@ -678,10 +717,10 @@ Example C01_write_path_nonvacuous :
   (forall x, wx_decompress (wx_compress x) = Some x) /\ (forall x, wx_compress x <> []) /\ (1 <= wo_ri wx_o)%N /\
   exists w0 w, w_init mp = Some w0 /\ wx_run w0 wx_ops = Some w /\
     bops_ok bytewise kp mp tblp tbl_crc wx_compress wx_decompress None (fun _ _ _ => true) true wx_o w0 wx_ops /\
-    ws_seq w = 7 /\ ws_snaps w = [5] /\
-    map (map (fun f => (tf_num f, lenN (tf_data f)))) (bs_levels (ws_bs w)) = [[]; [(7, 158); (8, 158)]] /\
-    map (fun k => wx_get w k 7) [97; 98; 99; 100; 101; 102] =
-      [Some (Some [5]); Some None; Some (Some [9]); Some (Some [3]); Some (Some [4]); Some None] /\
+    ws_seq w = 9 /\ ws_snaps w = [5] /\
+    map (map (fun f => tf_num f)) (bs_levels (ws_bs w)) = [[10; 9]; [7; 8]] /\
+    map (fun k => wx_get w k 9) [97; 98; 99; 100; 101; 102] =
+      [Some (Some [5]); Some None; Some (Some [9]); Some None; Some (Some [4]); Some (Some [7])] /\
     map (fun k => wx_get w k 5) [97; 98; 99; 100; 101; 102] =
       [Some None; Some None; Some (Some [2]); Some (Some [3]); Some (Some [4]); Some None].
 Proof.
@@ -706,7 +745,14 @@ Proof.
       - intros cm s' H1 H2. vm_compute in H1. injection H1 as <-. vm_compute in H2. injection H2 as <-.
         match goal with |- Forall _ ?l => let r := eval vm_compute in l in replace l with r by (vm_compute; reflexivity) end.
         repeat (apply Forall_cons; [split; [vm_compute; reflexivity|left; reflexivity]|]). apply Forall_nil. }
-    split; [wx_write|wx_next]. exact I.
+    split; [wx_write|wx_next].
+    split; [exact I|wx_next].
+    split; [wx_flush|wx_next].
+    split; [|wx_next; exact I].
+    split; [wx_recs|]. split; [vm_compute; reflexivity|]. split; [wx_heights|]. split; [vm_compute; reflexivity|].
+    split; [intros f Hf; vm_compute in Hf; wx_in Hf|].
+    intros d0 d' hs' H1 H2 _. vm_compute in H1. injection H1 as <-. vm_compute in H2. injection H2 as <- _.
+    split; [vm_compute; reflexivity|left; reflexivity].
   - vm_compute. repeat split; reflexivity.
 Qed.
 
